@@ -94,6 +94,9 @@ def step_oracle(cfg, path, ob, fp, par, fails):
         ch = [k for k in STATE + ('summary', 'export', 'output') if fp[k] != par[k]]
         if ch:
             fails.append(('set_spec-changes-%s:%s' % (GROUP[ch[0]], tag), dict(info, changed=ch), 'assigning cost_specification on %s changed %s' % (cfg_name(cfg), ch)))
+        # the three specifications give pairwise different cost values on these models: a switch must be visible
+        if spec_after(cfg, path) != spec_after(cfg, path[:-1]) and fp['cost'] == par['cost']:
+            fails.append(('set_spec-has-no-effect-on-cost:%s' % tag, info, 'assigning cost_specification %s on %s after %s did not change any cost value' % (op, cfg_name(cfg), list(path[:-1]))))
 
 
 def path_oracles(cfg, nodes, fails):
@@ -194,6 +197,9 @@ def compare_path(cfg, path, nodes, mres, mism):
 # ----------------------------------------------------------------------------- run
 def plan(ctx):
     cfgs = all_cfgs()
+    only = os.environ.get('VERIF_C18_METHODS')        # development knob (mutant runs): restrict to some methods
+    if only:
+        cfgs = [c for c in cfgs if c['method'] in only.split(',')]
     main = [c for c in cfgs if c['train'] and (c['method'] == 'PIT' or c['gumbel'])]          # 2 + 2 + 2
     tasks = []
     if ctx.quick:
